@@ -9,7 +9,7 @@ TRUSTED = ["Model/HinesArr.v mirrors solver_voltage.py + tridiax.thomas by hand 
            "jax.experimental.sparse.linalg.spsolve and tridiax.stone are third-party and only compared, not modelled",
            "float64 rounding: bounded by the componentwise backward error (<= 1e-9) of every backend's output"]
 ASSUMPTIONS = ["the for-all is proved of the model (all trees, counts, positive parameters) and tested of the code on enumerated trees x sampled counts/parameters",
-               "the level-ordered, padded array implementation is modelled operation by operation (Model/HinesArr.v, compared with step_voltage_implicit_with_jaxley_spsolve on the code's own index structures); its correctness for all array contents is a theorem conditional on the verified schedule checker accepting the index structure, which is evaluated on every sampled module, not proved for all trees"]
+               "the level-ordered, padded array implementation is modelled operation by operation (Model/HinesArr.v, compared with step_voltage_implicit_with_jaxley_spsolve on the code's own index structures); its correctness for all array contents and EVERY cell is a theorem about the index structure computed by Model/HinesIdx.v, which is compared exactly with the code's JaxleySolveIndexer on every sampled cell (for networks the checker is evaluated per sampled structure)"]
 
 BACKENDS = ["jaxley.thomas", "jaxley.stone", "jax.sparse"]
 
@@ -244,6 +244,7 @@ def run(ctx):
     # ---- array level: the code's own index structures through Model/HinesArr.v and the verified
     #      schedule checker (theorem C01_array_solver_correct)
     narr = 0
+    nidx = 0
     try:
         import hineslib
         from jaxley.solver_voltage import step_voltage_implicit_with_jaxley_spsolve  # noqa: F401
@@ -260,7 +261,7 @@ def run(ctx):
             for cells in ([([-1, 0], [2, 1]), ([-1], [2]), ([-1, 0, 0], [2, 2, 2])], [([-1], [1]), ([-1], [1])],
                           [([-1, 0, 0, 1], [2, 1, 2, 1]), ([-1, 0], [2, 1]), ([-1], [2])], [([-1, 0], [2, 1]), ([-1], [1])]):
                 mods.append(({"network_of": cells}, jx.Network([jx.Cell([jx.Branch([comp] * n) for n in c], parents=q) for q, c in cells])))
-        exprs, metas = [], []
+        exprs, metas, idx_jobs = [], [], []
         for case, m in mods:
             st = hineslib.structure(m)
             g, v0, vt, ct, dtq = hineslib.random_values(rng, st)
@@ -274,6 +275,10 @@ def run(ctx):
             except (AssertionError, NotImplementedError, ValueError):
                 continue        # the jaxley backends refuse this structure (allowed by the property)
             exprs += [hineslib.coq_step_expr(st, g, v0, vt, ct, dtq), hineslib.coq_step_expr(st, g, v0, vt, ct, dtq, fn="arr_divisors_okQ"), chk]
+            if "parents" in case:
+                # Model/HinesIdx.v (about which C01_checker_accepts_every_cell is proved) must produce
+                # exactly the index structure the code built
+                idx_jobs.append(("idx_summary " + hineslib.nat_list([max(q_, 0) for q_ in case["parents"]]) + " " + hineslib.nat_list(case["counts"]), case, st))
             metas.append((case, st, reals, dict(g=[float(x) for x in g], v=[float(x) for x in v0], vt=[float(x) for x in vt], ct=[float(x) for x in ct], dt=float(dtq))))
         outs = coqeval.coq_eval(["CableQ", "HinesArr", "HinesArrQ", "HinesCheck"], exprs, shard=3)
         for k, (case, st, reals, vals) in enumerate(metas):
@@ -290,6 +295,16 @@ def run(ctx):
             if outs[3 * k + 2] != "true":
                 viol.append(dict(case, kind="the verified schedule checker rejects the index structure the code built (theorem C01_array_solver_correct no longer applies)",
                                  cumsum=st["cs"], padded=st["pl"], ncomp=st["nc"], levels=st["levels"], roots=st["roots"], no_failing_input_found=True))
+        import ast
+        outs2 = coqeval.coq_eval(["HinesArr", "HinesCheck", "HinesIdx"], [j[0] for j in idx_jobs], prelude="Close Scope Q_scope. Open Scope nat_scope.", shard=6)
+        for (expr, case, st), o in zip(idx_jobs, outs2):
+            cum, (plm, lev) = ast.literal_eval(o.replace("%nat", "").replace(";", ","))
+            model_idx = (list(cum), list(plm), [([tuple(x) for x in a], [tuple(x) for x in b]) for a, b in lev])
+            real_idx = (st["cs"] + [st["cs"][-1] + st["pl"][-1]], st["pl"], [([tuple(x) for x in a], [tuple(x) for x in b]) for a, b in st["levels"]])
+            nidx += 1
+            if model_idx != real_idx or st["roots"] != [0]:
+                viol.append(dict(case, kind="the index structure built by the code differs from Model/HinesIdx.v (theorem C01_checker_accepts_every_cell is about the model)",
+                                 code=repr(real_idx)[:600], model=repr(model_idx)[:600], no_failing_input_found=True))
     except Exception as ex:
         import traceback
         viol.append({"kind": "array-level correspondence could not be evaluated", "error": repr(ex)[:500], "trace": traceback.format_exc()[-600:], "no_failing_input_found": True})
@@ -298,7 +313,7 @@ def run(ctx):
     return {"evaluations": evals, "distinct_nontrivial": len(distinct),
             "rule": "one voltage step of every enumerated sorted tree (<=4/5 branches) x sampled compartment counts {1,2,3} + random larger trees, heterogeneous dyadic parameters, optional stimulus, dt in {0.025 .. 1e9}, bwd/CN x 3 backends + fwd on cables + networks; each output checked by exact backward error against an independent physical assembly and against Model/Cable.v in exact rationals; distinct by (tree, counts)",
             "samples": samples, "violations": viol[:20], "traces_validated_against_impl": nmodel,
-            "cases_with_padded_parent_branch": ncrit, "array_level_modules": narr}
+            "cases_with_padded_parent_branch": ncrit, "array_level_modules": narr, "index_structures_compared": nidx}
 
 
 def replay(ctx, case):
